@@ -190,6 +190,8 @@ def rf24Call (d : Rf24) (w : World) : List String → Option (String × Rf24 × 
   | ["stop_carrier_wave"] => some (runD d w stopCarrierWave sUnit)
   | ["enter"] => some (runD d w enter sUnit)
   | ["exit"] => some (runD d w exit sUnit)
+  -- `with obj: raise KeyError`: the block is entered and left, and the exception propagates (`__exit__` returns False)
+  | ["withraise"] => some (runD d w (do enter; exit) fun _ => "raised")
   | _ => none
 
 def parseFaults (s : String) : Option (List Outcome) :=
